@@ -74,6 +74,61 @@ class Core:
     def scope(self, body):
         return [body] + self.core.descendants(body)
 
+    def eviction_fn(self, adt):
+        """the routine that enforces the entry limit for this flavour: the function of the cache type (or a closure in it)
+        that compares the queue/store length with the limit - found by that comparison, not by its name"""
+        if not hasattr(self, '_evfn'):
+            self._evfn = {}
+        if adt in self._evfn:
+            return self._evfn[adt]
+        found = []
+        for b in self.core.bodies.values():
+            if b.kind not in ('fn', 'assoc_fn') or not (b.impl_self or '').startswith(adt):
+                continue
+            for (xid, bi), lst in self.cmp_sites(b).items():
+                if any(x[0] == 'cmp:overflow' for x in lst):
+                    found.append(b)
+                    break
+        self._evfn[adt] = found[0] if len(found) == 1 else None
+        return self._evfn[adt]
+
+    def selectors(self):
+        """[(flavour group, policy, body)] of the victim selectors, discovered as the Option-returning scanning functions
+        the eviction routine reaches under LFU / ARC / TLRU"""
+        if hasattr(self, '_selectors'):
+            return self._selectors
+        out = {}
+        for flav, adt in FLAVOURS:
+            ev = self.eviction_fn(adt)
+            if ev is None:
+                continue
+            for pol in ('LFU', 'ARC', 'TLRU'):
+                a = {'policy': POL.index(pol), 'limit': 1, 'max_memory': 0, 'ttl': 1}
+                visited = set()
+                todo = [ev]
+                while todo:
+                    x = todo.pop()
+                    if x.id in visited:
+                        continue
+                    visited.add(x.id)
+                    sp = Spec(self.prog, x, a)
+                    for b in sp.reachable_blocks():
+                        t = x.term(b)
+                        if t['k'] != 'call':
+                            continue
+                        for cb in self.prog.closures_passed(t):
+                            todo.append(cb)  # closures run from a block that is reachable under this policy
+                        for cb in self.prog.lookup(t):
+                            if cb.crate is self.core and cb.kind in ('fn', 'assoc_fn') and cb.local_ty(0).startswith(N.OPTION + '<') \
+                                    and any(callee_name(t2) == NEXT for _, t2 in cb.calls()):
+                                out.setdefault((cb.id, pol), set()).add(flav)
+        res = []
+        for (cid, pol), flavs in sorted(out.items()):
+            grp = 'async' if flavs == {'async'} else 'sync' if 'async' not in flavs else 'shared'
+            res.append((grp, pol, self.prog.bodies[cid]))
+        self._selectors = res
+        return res
+
     def cmp_sites(self, body):
         """{(body id, block): [kinds]} statement-level comparison roles in body and nested closures"""
         if body.id in self._cmp:
@@ -500,7 +555,7 @@ def eviction_rows(ctx):
     rows = []
     anchors = {}
     for flav, adt in FLAVOURS:
-        fn = C.method(adt, 'handle_entry_limit_eviction')
+        fn = C.eviction_fn(adt)
         anchors[flav] = fn.name if fn else None
         if fn is None:
             continue
@@ -585,7 +640,7 @@ def check_overflow_form(run, ctx):
     C = Core(ctx)
     n = 0
     for flav, adt in FLAVOURS:
-        ev = C.method(adt, 'handle_entry_limit_eviction')
+        ev = C.eviction_fn(adt)
         if ev is None:
             run.bad('C04-K1', '%s/fail-closed' % flav, 'fail-closed: no limit-eviction routine found for %s' % adt)
             continue
@@ -875,14 +930,6 @@ def check_memory_loop(run, ctx):
 # victim selectors (C08-K1..K4)
 # ------------------------------------------------------------------------------------------------
 NEXT = 'core::iter::traits::iterator::Iterator::next'
-SELECTORS = [
-    ('sync', 'LFU', 'cachelito_core::utils::find_min_frequency_key'),
-    ('sync', 'ARC', 'cachelito_core::utils::find_arc_eviction_key'),
-    ('sync', 'TLRU', 'cachelito_core::utils::find_tlru_eviction_key'),
-    ('async', 'LFU', N.ASYNC + '::find_min_frequency_key'),
-    ('async', 'ARC', N.ASYNC + '::find_arc_eviction_key'),
-    ('async', 'TLRU', N.ASYNC + '::find_tlru_eviction_key'),
-]
 
 
 def _phi_defs(body, ex, l):
@@ -1042,13 +1089,11 @@ def check_selectors(run, ctx):
     found = 0
     # residents compete only where the newcomer is not yet stored when the scan runs
     sf = {adt: newcomer_stored_first(ctx, adt) for _, adt in FLAVOURS}
-    compete_by_flavour = {'sync': not (sf[N.GLOBAL] is True and sf[N.THREAD] is True), 'async': sf[N.ASYNC] is not True}
-    for (flav, pol, name) in SELECTORS:
-        body = ctx.core_fn(name)
+    compete_by_flavour = {'sync': not (sf[N.GLOBAL] is True and sf[N.THREAD] is True), 'async': sf[N.ASYNC] is not True,
+                          'shared': not (sf[N.GLOBAL] is True and sf[N.THREAD] is True and sf[N.ASYNC] is True)}
+    for (flav, pol, body) in C.selectors():
+        name = body.name
         key = '%s/%s' % (flav, pol)
-        if body is None:
-            run.bad('C08-K1', key + '/fail-closed', 'fail-closed: selector %s not found' % name)
-            continue
         found += 1
         info = analyse_selector(ctx, body)
         n += 1
@@ -1110,7 +1155,7 @@ def newcomer_stored_first(ctx, adt):
     """True if in this flavour the store insertion dominates the limit eviction (sync), False if it
     follows it (async), None if undetermined"""
     C = Core(ctx)
-    ev = C.method(adt, 'handle_entry_limit_eviction')
+    ev = C.eviction_fn(adt)
     fn = C.method(adt, 'insert')
     if ev is None or fn is None:
         return None
